@@ -122,6 +122,16 @@ def iterate_pair(ds, r):
     return [oa, ob]
 
 
+def mk_filter(fv):
+    """A fresh predicate on ShardInfo: an int selects by the custom metadata value; {"nex_ge": t} / {"nex_eq": t} by the recorded number of examples
+    (something other than the metadata, on which shards with equal metadata may differ)."""
+    if isinstance(fv, dict):
+        if "nex_ge" in fv:
+            return lambda s, t=fv["nex_ge"]: s.number_of_examples >= t
+        return lambda s, t=fv["nex_eq"]: s.number_of_examples == t
+    return lambda s, fv=fv: int(s.custom_metadata.get("k", 0)) == fv
+
+
 def iterate_multi(ds, r):
     """Several streams of one interface alive at once; the consumer pulls from / drops them in the given order.
     ops: ["P", i] = next(stream i), ["A", i] = close stream i.  Answer per op: the example value, "stop", "error:<type>", or None (drop)."""
@@ -159,8 +169,7 @@ def iterate_ds(ds, r):
     if r.get("shards") is not None:
         kw["shards"] = r["shards"]
     if r.get("filter") is not None:
-        fv = r["filter"]
-        kw["shard_filter"] = lambda s, fv=fv: int(s.custom_metadata.get("k", 0)) == fv
+        kw["shard_filter"] = mk_filter(r["filter"])
     if r.get("process"):
         kw["process_record"] = proc
     iface = r["iface"]
@@ -203,7 +212,7 @@ def iterate_ds(ds, r):
         seq = r.get("seq") or [{"filter": fv} for fv in r["filters"]]
         for o in seq:
             fv = o.get("filter")
-            kw3 = {"split": split, "shard_filter": (None if fv is None else (lambda s, fv=fv: int(s.custom_metadata.get("k", 0)) == fv))}
+            kw3 = {"split": split, "shard_filter": (None if fv is None else mk_filter(fv))}
             if o.get("shards") is not None:
                 kw3["shards"] = o["shards"]
             if o.get("limit") is not None:
